@@ -408,6 +408,23 @@ impl C10 {
                             // the accepted-only replica must accept it too
                             match guard(|| r2.add(&built, declared, &k)) {
                                 Ok(Ok((true, _))) => {}
+                                Ok(Ok((false, _)))
+                                    if !case.interned
+                                        && failed_attempts > 0
+                                        && k.max_block_cost_clvm.saturating_sub(r1.cost()) < 64 * k.cost_per_byte =>
+                                {
+                                    // the attempt landed within a few bytes of the limit: the builder that saw
+                                    // rejected attempts serialised it a little smaller (different back-references,
+                                    // the recorded serializer-cache finding) and it just fitted; the other one did not
+                                    bail!(
+                                        format!("rejected_attempt_changed_serialisation_only:{kind}"),
+                                        step,
+                                        format!(
+                                            "an attempt landing {} cost units below the limit was accepted by the builder that saw the failed attempts and rejected by the one that did not (serialised sizes differ by a few bytes)",
+                                            k.max_block_cost_clvm.saturating_sub(r1.cost())
+                                        )
+                                    )
+                                }
                                 Ok(other) => bail!(
                                     format!("replica_divergence:accept:{kind}"),
                                     step,
@@ -547,7 +564,12 @@ impl C10 {
             let what = if generator != f2.0 { "generator" } else if signature != f2.1 { "signature" } else { "cost" };
             // same decoded spends and same signature, only the serialisation (choice of
             // back-references, and with it possibly the length and the byte cost) differs?
+            // ... and the cost differs by exactly the difference in length
+            let len_delta = generator.len() as i128 - f2.0.len() as i128;
+            let cost_delta = i128::from(cost) - i128::from(f2.2);
             let same_tree = signature == f2.1
+                && cost_delta == len_delta * i128::from(k.cost_per_byte)
+                && len_delta.abs() < 64
                 && guard(|| decode_generator(&f2.0)).ok().and_then(Result::ok).map(|mut g| { g.sort(); g == got }).unwrap_or(false);
             if same_tree {
                 bail!(
